@@ -294,7 +294,21 @@ impl InterfaceInner {
         ipv6_repr: Ipv6Repr,
         ip_payload: &'frame [u8],
     ) -> HopByHopResponse<'frame> {
+        let ext_hdr = check!(Ipv6ExtHeader::new_checked(ip_payload));
+        let ext_repr = check!(Ipv6ExtHeaderRepr::parse(&ext_hdr));
+        let hbh_hdr = check!(Ipv6HopByHopHeader::new_checked(ext_repr.data));
+        let hbh_repr = check!(Ipv6HopByHopRepr::parse(&hbh_hdr));
+
+        // An ICMPv6 error message is never answered with an error (RFC 4443 section 2.4 (e.1)),
+        // whatever the options in front of it ask for.
+        let upper_layer = &ip_payload[ext_repr.header_len() + ext_repr.data.len()..];
+        let carries_icmp_error = ext_repr.next_header == IpProtocol::Icmpv6
+            && upper_layer.first().is_some_and(|msg_type| *msg_type < 128);
+
         let param_problem = || {
+            if carries_icmp_error {
+                return None;
+            }
             let payload_len =
                 icmp_reply_payload_len(ip_payload.len(), IPV6_MIN_MTU, ipv6_repr.buffer_len());
             self.icmpv6_reply(
@@ -307,11 +321,6 @@ impl InterfaceInner {
                 },
             )
         };
-
-        let ext_hdr = check!(Ipv6ExtHeader::new_checked(ip_payload));
-        let ext_repr = check!(Ipv6ExtHeaderRepr::parse(&ext_hdr));
-        let hbh_hdr = check!(Ipv6HopByHopHeader::new_checked(ext_repr.data));
-        let hbh_repr = check!(Ipv6HopByHopRepr::parse(&hbh_hdr));
 
         for opt_repr in &hbh_repr.options {
             match opt_repr {
@@ -341,10 +350,7 @@ impl InterfaceInner {
             }
         }
 
-        HopByHopResponse::Continue((
-            ext_repr.next_header,
-            &ip_payload[ext_repr.header_len() + ext_repr.data.len()..],
-        ))
+        HopByHopResponse::Continue((ext_repr.next_header, upper_layer))
     }
 
     /// Given the next header value forward the payload onto the correct process
